@@ -11,9 +11,9 @@ import os, struct
 import fam_cq
 from fam_cq import Sz, Builder, stream, length_for, sz_merge
 
-READY_C09 = False
-READY_C10 = False
-READY_C11 = False
+READY_C09 = True
+READY_C10 = True
+READY_C11 = True
 COQ_PROPS_C09 = ['Properties_C09_cq']
 COQ_PROPS_C10 = ['Properties_C10_cq']
 COQ_PROPS_C11 = ['Properties_C11_cq', 'Regression_cqcodec']
@@ -238,8 +238,11 @@ def gen_c10(rng, tier):
             img = py_enc(kind, k, c['n'], c['mn'], c['mx'], c['bb'], c['levels'], sv=form['sv'], compact=form['compact'], srt=srt, pre=pre,
                          extra_flags=rng.choice([0, 0, 1, 2, 0x20, 0xE3]), trailing=rng.choice([0, 0, 3, 16]))
         want = py_enc(kind, k, c['n'], c['mn'], c['mx'], sorted(c['bb']), c['levels'], empty=c['n'] == 0)
-        ops = [[22, 0, kind] + img, [5, 0], [20, 0], [10, 0]]
         lo = c['mn']; hi = c['mx']
+        ops = [[22, 0, kind] + img]
+        if c['n'] and rng.random() < 0.7:                       # queries BEFORE anything sorts the base buffer: the sorted flag of the image matters
+            ops += [[6, 0, rng.randrange(lo - 1, hi + 2)], [7, 0, rng.randrange(0, 5), 2]]
+        ops += [[5, 0], [20, 0], [10, 0]]
         if c['n']:
             for _ in range(3):
                 ops.append([6, 0, rng.randrange(lo - 1, hi + 2)])
@@ -269,31 +272,34 @@ def oracle_c10(case, irecs, mrecs):
     F0 = irecs[0].get('F') or []
     if F0 and F0[0] != 1:
         fail('cq_readers_disagree', 'the byte reader and the stream reader restore different sketches from the same image', 0)
-    R = irecs[1]['R']
+    i5 = next(i for i, op in enumerate(case['ops']) if op[0] == 5); i20 = next(i for i, op in enumerate(case['ops']) if op[0] == 20)
+    if max(i5, i20) >= len(irecs):
+        return fails
+    R = irecs[i5]['R']
     if R == [-1] or len(R) < 5:
-        fail('cq_layout_observe', 'the decoded sketch cannot be observed', 1); return fails
+        fail('cq_layout_observe', 'the decoded sketch cannot be observed', i5); return fails
     n, nret, empty, est, k, mn, mx, items = observed(R)
     if 'shipped' in case:
         N, v = case['shipped']
         if n != N or k != 128 or (mn, mx) != (1, N) or sum(w for _, w in items) != N or len(items) != nret:
-            fail('cq_reference_image_content', 'reference image n=%d v%s decodes to n=%d k=%d min/max=%s/%s, weights %d' % (N, v, n, k, mn, mx, sum(w for _, w in items)), 1)
+            fail('cq_reference_image_content', 'reference image n=%d v%s decodes to n=%d k=%d min/max=%s/%s, weights %d' % (N, v, n, k, mn, mx, sum(w for _, w in items)), i5)
         if N == 50 and items != [(i, 1) for i in range(1, 51)]:
-            fail('cq_reference_image_content', 'reference image n=50 v%s does not decode to the items 1..50' % v, 1)
+            fail('cq_reference_image_content', 'reference image n=50 v%s does not decode to the items 1..50' % v, i5)
         if not set(x for x, _ in items) <= set(range(1, N + 1)):
-            fail('cq_reference_image_content', 'reference image holds an item outside 1..n', 1)
-        check_image(irecs[2]['R'], irecs[2].get('F') or [], fail, 2)
+            fail('cq_reference_image_content', 'reference image holds an item outside 1..n', i5)
+        check_image(irecs[i20]['R'], irecs[i20].get('F') or [], fail, i20)
         return fails
     c = case['content']
     if n != c['n'] or k != c['k'] or nret != len(c['bb']) + sum(len(l) for l in c['levels']) or empty != (1 if c['n'] == 0 else 0):
-        fail('cq_layout_counts', 'decoded n/k/retained/empty = %s, the image says n = %d, k = %d' % (R[:5], c['n'], c['k']), 1)
+        fail('cq_layout_counts', 'decoded n/k/retained/empty = %s, the image says n = %d, k = %d' % (R[:5], c['n'], c['k']), i5)
     if c['n'] and [mn, mx] != [c['mn'], c['mx']]:
-        fail('cq_layout_minmax', 'decoded min/max %s, image holds %s' % ([mn, mx], [c['mn'], c['mx']]), 1)
+        fail('cq_layout_minmax', 'decoded min/max %s, image holds %s' % ([mn, mx], [c['mn'], c['mx']]), i5)
     if items != weights_of(c):
-        fail('cq_layout_items', 'decoded items/weights differ from the content the image was written from', 1)
-    R2 = irecs[2]['R']; F2 = irecs[2].get('F') or []
-    check_image(R2, F2, fail, 2)
+        fail('cq_layout_items', 'decoded items/weights differ from the content the image was written from', i5)
+    R2 = irecs[i20]['R']; F2 = irecs[i20].get('F') or []
+    check_image(R2, F2, fail, i20)
     if R2 != case['want']:
-        fail('cq_layout_reserialized', 'the decoded sketch does not serialize back to the version-3 image of its content', 2)
+        fail('cq_layout_reserialized', 'the decoded sketch does not serialize back to the version-3 image of its content', i20)
     return fails
 
 # ---------------------------------------------------------------------------------------------------------------------
@@ -415,3 +421,19 @@ def fam(prop, gen, oracle):
 FAMILIES_C09 = [fam('C09', gen_c09, oracle_c09)]
 FAMILIES_C10 = [fam('C10', gen_c10, oracle_c10)]
 FAMILIES_C11 = [fam('C11', gen_c11, oracle_c11)]
+
+# ---------------------------------------------------------------------------------------------------------------------
+# Mutation log (scratch worktree with fixes/11_cq_v1_unused_long.patch applied, VERIF_REPO, quick tier, seed 1;
+# quantiles/include/quantiles_sketch_impl.hpp).  Breaking, each reported as VIOLATION by the checks named:
+#   c1  serialize(bytes): flags byte without IS_SORTED                                   C09, C10, C11
+#   c2  serialize(stream): min and max written in swapped order                          C09, C10
+#   c3  deserialize(bytes) / c3s deserialize(stream): is_sorted taken from the compact bit   C10, C11 (queries before anything sorts the base buffer;
+#       readers compared on rank/quantile before re-serializing)
+#   c4  deserialize(stream): the unused long of a version-1 image is not skipped         C10 (shipped v0.3.0 images), C11
+#   c5  get_serialized_size_bytes: one item short                                        C09, C10, C11
+#   c6  deserialize(bytes): a non-compact base buffer is taken to have k slots           C10, C11
+#   c7  check_header_validity: case 164 (version 1, 5 preamble longs) dropped            C10, C11
+#   c8  deserialize(bytes): ensure_minimum_memory(size, 16) dropped                      C11 (ASan on the prefixes of 8..15 bytes)
+#   the unrepaired /repo tree (unused long of version 1 read without a size check)       C11 (ASan: heap-buffer-overflow in copy_from_mem)
+# Harmless rewrites tolerated (exit 0 for C09, C10, C11): h1 flags byte built with + instead of |; h2 serialize(stream) writes the base buffer only
+# when it is non-empty and deserialize(bytes) no longer reserves the level vector.
